@@ -144,7 +144,7 @@ def L(*vals):
     return ('list', list(vals))
 
 
-STR_PATS_BASIC = ['a', 'ab', 'a*', '*a', '*a*', '*', 'ia', 'iA*', 'i*b', 'i*aB*', '', '"a"', "'*'"]
+STR_PATS_BASIC = ['a', 'ab', 'a*', '*a', '*a*', '*', 'ia', 'iA*', 'i*b', 'i*aB*', '', '"a"', "'*'", '"a\'', "i'a\"", '"', "i'"]
 STR_PATS_MORE = ['b*', '*b', '*ab*', 'ab*', '*ba', 'iab', '**', 'i*', 'i', '*a*b', 'a*b']
 REGEX_PATS = ['?a', '?ab', 'i?a', '?^a', '?b$']
 REGEX_REWRITE = ['?.*a', '?a.*', '?.*a.*', '?.*', '?.*.*', '?.*a|b', '?a|b.*', '?.*?a', '?a\\.*', '?.*+a', 'i?.*A']
@@ -352,7 +352,8 @@ def select(tier, seed, fams=None):
     return allt
 
 
-MUST = {'list-mixed/<=1.5,>100.0', 'list-mixed/=2,>=7,<-1', 'modifier/{str(f), g}', 'modifier/{not(f), g}', 'modifier/{int(f), g}',
+MUST = {'single/"a\'', 'single/i\'a"', 'single/"',
+        'list-mixed/<=1.5,>100.0', 'list-mixed/=2,>=7,<-1', 'modifier/{str(f), g}', 'modifier/{not(f), g}', 'modifier/{int(f), g}',
         'list/i?a,i?b', 'list/?a,?b', 'list/a,?a,ib', 'list/a*,*b', 'list/ia,ib*', 'list/a*,*a,*a*,a', 'list/ab,b', 'list/a*,*b,ic',
         'list-all/a*,*b', 'list-all/i?a,i?b', 'list-all/ab,b', 'list-of/a*,*b|2', 'list-of/?a,?b|2', 'list-of/ia,ib*|1', 'list-of/a,b|0',
         'single/iA*', 'single/*a*', 'single/"a"', 'regex/i?a', 'number/>1', 'number/<=0.5', 'scalar/int1', 'scalar/null',
